@@ -81,7 +81,9 @@ CHECKS = {
         text="Uci.tla: CmdGo is a relation - zero or more info lines then exactly one bestmove whose move is in {Uci(m) : m in Legal(board)}, "
              "'0000' exactly when that set is empty. TLC simulates Uci.tla into command scripts (positions incl. mate/stalemate, depth, "
              "movetime 0.., clocks at/below the reserve in all token orders, earlier searches in the same process); the scripts run on "
-             "the real release binary; TLC validates every recorded answer against UciTrace.tla, computing Legal(board) itself.",
+             "the real release binary; TLC validates every recorded answer against UciTrace.tla, computing Legal(board) itself. Table probe "
+             "(PoisonTrace.tla): after a search every table key must be the hash of a position that search entered; for a key that is not, "
+             "the look-alike position with exactly that hash is searched on the same Searcher and TLC judges the answer (replay: the two-search script on the real binary).",
         design_ref="DESIGN.md section 5, C03", note=_UCI_NOTE,
         technique="TLA+ protocol spec; TLC-simulated scripts run on the real binary; TLC trace validation"),
     "C04": dict(
@@ -123,7 +125,7 @@ CHECKS = {
         text="TimeCtl.tla states the relation a budget must satisfy (FitsClock: <= own clock, strictly below it when any time remains; "
              "OwnClockOnly: a function of side to move, own time, own increment) without pinning the formula. TLC enumerates "
              "exhaustively all go commands over a grid of boundary values x token orders x every non-empty subset of the four tokens x both "
-             "sides, with increments RELATIVE to the mover's clock (just below / at / above it), plus random lines beyond the grid; the hooked handler reports what "
+             "sides, with increments RELATIVE to the mover's clock (just below / at / above it), with and without a movestogo token (before / after the clock tokens), plus random lines beyond the grid; the hooked handler reports what "
              "the real parser hands to the search; TLC validates both predicates on every event (TimeTrace.tla). The allocation formula and the whole go parser are transcribed (TimeCtl "
              "ModelBudget, GoParse.tla): differences are SPEC-DRIFT only.",
         design_ref="DESIGN.md section 5, C12",
@@ -154,9 +156,11 @@ CHECKS = {
         text="Design: Search.tla, Prompt: at most 2 node entries after the clock expired (1 under a node budget), for every expiry point. "
              "Conformance: node budgets on the real search for ordinary and quiescence-explosive positions, depths 2..5: nodes entered "
              "after the deadline <= 1, nothing entered after a true poll, at most 2 nodes between consecutive polls (a missing poll in a "
-             "loop shows as a gap of the size of its subtree); TLC validates the bounds (PromptTrace.tla). Wall clock recorded, only > 5 s overrun fails.",
+             "loop shows as a gap of the size of its subtree); TLC validates the bounds (PromptTrace.tla). Wall clock (the timer's own arithmetic is bypassed "
+             "by the budgets): go movetime / clock lines on the real binary incl. budgets of 0-5 ms and positions with a single legal move / a mate in one; "
+             "the budget is the one the real parser hands to the search; TLC rejects a case whose SMALLEST overrun over up to 5 repetitions exceeds 500 ms or that is not answered.",
         design_ref="DESIGN.md section 5 and 7, C07",
-        note="The small-constant clause is decided in node units, not milliseconds. Budgets are sampled (every k only in the thorough tier up to the cap).",
+        note="The small-constant clause is decided in node units; in milliseconds only the smallest overrun over repetitions counts (tolerance 500 ms). Budgets are sampled (every k only in the thorough tier up to the cap).",
         technique="TLA+/PlusCal search spec model-checked by TLC; node-budget traces of the real search validated by TLC"),
     "C08": dict(
         text="Design: Search.tla on graphs with mated/stalemated terminals: MateInOnePlayed (depth 1..3), NoAvoidableMateAllowed (depth 2..3) "
